@@ -51,6 +51,13 @@ package transports
 //@   assigns nothing
 //@ func (r Registration) SharedSecret() []byte
 //@   assigns nothing
+//@ func (r Registration) TransportKeys() any
+//@   assigns nothing
+//@ func (r Registration) TransportReader() io.Reader
+//@   assigns nothing
+// (storing derived keys changes the registration object only)
+//@ func (r Registration) SetTransportKeys(keys any) error
+//@   assigns obj(r)
 
 // ---------------- C01: seeded destination port ----------------
 // Published algorithm (every transport, station and client): the port is min + a draw in [0, max-min) taken from the
